@@ -175,12 +175,20 @@ var (
 
 var jsonSafe bool // integers within +-2^53 (encoding/json reads numbers as float64)
 
+// fillZone: the Location generated time values carry (nil = what time.Unix gives). The codecs must
+// not depend on it: an instant has ONE encoding (C18 determinism), whatever zone the value is in.
+var fillZone *time.Location
+
 func fill(R *vh.Rng, rv reflect.Value, depth int) {
 	rt := rv.Type()
 	switch {
 	case rt == timeT:
 		ms := []int64{0, 1, 1500000000000, -1, 9223372036854, -9223372036854, int64(R.Intn(1 << 40))}[R.Intn(7)] // UnixNano range
-		rv.Set(reflect.ValueOf(time.Unix(0, ms*1000000)))
+		t := time.Unix(0, ms*1000000)
+		if fillZone != nil {
+			t = t.In(fillZone)
+		}
+		rv.Set(reflect.ValueOf(t))
 		return
 	case rt == sigT:
 		if R.Chance(85) {
@@ -506,7 +514,29 @@ func main() {
 		k := ks[R.Intn(len(ks))]
 		x := k.mk()
 		jsonSafe = R.Chance(70)
+		saved := *R
 		fill(R, reflect.ValueOf(x).Elem(), 0)
+		{ // the same value with every time in another zone: both encodings must be byte-identical
+			twin := k.mk()
+			Rz := saved
+			fillZone = time.FixedZone("z", []int{8 * 3600, -5 * 3600, 5*3600 + 1800, 14 * 3600, -12 * 3600, 1}[i%6])
+			fill(&Rz, reflect.ValueOf(twin).Elem(), 0)
+			fillZone = nil
+			zr := vh.Guard(func() string {
+				if !bytes.Equal(wire.BinaryBytes(x), wire.BinaryBytes(twin)) {
+					return "binary encoding differs"
+				}
+				if k.name != "State" && !bytes.Equal(wire.JSONBytes(x), wire.JSONBytes(twin)) {
+					return "JSON encoding differs: " + string(wire.JSONBytes(twin))
+				}
+				return "ok"
+			})
+			r.Count("struct.zone-twin")
+			if zr != "ok" && zr != "panic" {
+				fail("encoding-depends-on-the-time-zone-of-a-time-value", "the same instant in another time.Location encodes differently ("+k.name+"): "+zr,
+					[]string{"go json " + k.name + " " + string(wire.JSONBytes(x))}, zr, "ok")
+			}
+		}
 		if i < 2*len(boundary) { // always: slices whose length sits on the reader's chunk size
 			n := boundary[i%len(boundary)]
 			if i < len(boundary) {
